@@ -85,6 +85,13 @@ def curated():
     add("backtick-runs-1..80-cycled", raw(lambda n: " ".join("`" * (1 + i % 80) for i in range(max(1, n // 40)))))
     add("dollar-backtick-a", _f("$`a "))
     add("dollar-runs", raw(lambda n: " ".join("$" * (1 + i % 5) + "a" for i in range(n // 3))))
+    # lists whose items hold nothing but reference definitions (each emptied paragraph is removed at finalization;
+    # whatever that triggers must not look at the whole list again: seeded C06-m3), loose and ordered variants
+    add("list-refdef-items", _f("- [a]: b\n"))
+    add("list-refdef-items-loose", _f("- [a]: b\n\n"))
+    add("olist-refdef-items", _f("1. [a]: b\n"))
+    add("list-refdef-then-text", _f("- [a]: b\n  c\n"))
+    add("quote-list-refdef-items", _f("> - [a]: b\n"))
     add("email", _f("a@b.c "))
     add("email-nl", _f("a@b.c\n"))
     add("www", _f("www.a.b "))
